@@ -1726,6 +1726,68 @@ def opt4(ctx: Ctx) -> None:
     ctx.R.expect_min("OPT-4", 4)
 
 
+def _opt6_by_evaluation(mod, fn: ast.FunctionDef):
+    """evaluate extract_child (engine MINI) for the four (for_task, recurse_child_tasks) combinations: a frameless stub carrying
+    only the root -- and no call of extract_iter -- exactly for (True, False).  -> True / (False, text) / None (outside the fragment)"""
+    from types import SimpleNamespace as NS
+    from ..minieval import Mini, Raised, Unsupported, _Return
+    params = [a.arg for a in fn.args.args] + [a.arg for a in fn.args.kwonlyargs]
+    if len(params) != 2:
+        return None
+    SliceT = NS(tname="StackSlice")
+    for for_task in (False, True):
+        for rec in (False, True, 0):          # 0: a falsy value that is not False (the option is tested for truth)
+            item, leaf, fr = NS(tag="stackitem"), NS(tag="leaf"), [NS(tag="frame0")]
+            st = {"k": 0, "called": False}
+
+            def extract_iter(it_, lst_):
+                st["called"] = True
+                return NS(tag="iterator", gi_frame=None)
+
+            def nxt(it_, *d_):
+                if st["k"] < len(fr):
+                    st["k"] += 1
+                    return fr[st["k"] - 1]
+                raise Raised("StopIteration", NS(tag="StopIteration", value=leaf))
+            env = {params[0]: item, params[1]: for_task, "current_options": NS(with_contexts=True, recurse_child_tasks=rec), "StackSlice": SliceT}
+            m = Mini(env, {q: f for q, f in mod.defs.items() if isinstance(f, ast.FunctionDef) and "." not in q and f is not fn},
+                     {"extract_iter": extract_iter, "next": nxt, "isinstance": lambda o_, c_: False, "Stack": lambda **kw: NS(kind="Stack", **kw), "ExceptionGroup": lambda msg, lst: NS(kind="group")})
+            _module_consts(m, mod)
+            res = None
+            try:
+                try:
+                    for s_ in fn.body:
+                        m.stmt(s_)
+                except _Return as r:
+                    res = r.value
+            except (Unsupported, Raised):
+                return None
+            except Exception:
+                return None
+            if not isinstance(res, NS) or getattr(res, "kind", None) != "Stack":
+                return None
+            stub = not st["called"] and getattr(res, "root", None) is item and getattr(res, "frames", None) in ([], ()) and getattr(res, "leaf", None) is None and getattr(res, "error", None) is None
+            full = st["called"] and isinstance(getattr(res, "frames", None), list) and len(res.frames) == 1
+            want_stub = for_task and not rec
+            if want_stub and not stub:
+                return (False, f"extract_child(for_task=True) with recurse_child_tasks=False {'runs the extraction' if st['called'] else 'returns something other than Stack(root=<task>, frames=[])'}: a child task must be a frameless stub unless recursion was requested")
+            if not want_stub and not full:
+                return (False, f"extract_child(for_task={for_task}) with recurse_child_tasks={rec} returns a stub / does not extract: the stack of {'a child task whose recursion was requested' if for_task else 'an inner stack'} is missing")
+    return True
+
+
+def _module_consts(m, mod) -> None:
+    from ..minieval import Raised, Unsupported
+    for a_ in mod.tree.body:
+        if isinstance(a_, (ast.Assign, ast.AnnAssign)) and isinstance(getattr(a_, "value", None), (ast.Constant, ast.JoinedStr)):
+            t_ = a_.targets[0] if isinstance(a_, ast.Assign) else a_.target
+            if isinstance(t_, ast.Name) and t_.id not in m.env:
+                try:
+                    m.stmt(a_)
+                except (Unsupported, Raised, Exception):
+                    pass
+
+
 def opt56(ctx: Ctx) -> None:
     mod = _engine_mod(ctx)
     # OPT-5 / OPT-6 extract_child
@@ -1739,6 +1801,13 @@ def opt56(ctx: Ctx) -> None:
         ctx.R.fail("OPT-5", mod, g0, "extract_child must refuse to run outside an extraction (options unset -> raise) before doing anything else", construct="extract_child guard")
     g1 = body[1]
     okstub = False
+    ev6 = _opt6_by_evaluation(mod, fn)
+    if ev6 is True:
+        ctx.R.ok("OPT-6", "extract_child evaluated on the four (for_task, recurse_child_tasks) combinations", "a frameless stub carrying only root, without touching extract_iter, exactly for (True, False)")
+        return
+    if ev6 is not None:
+        ctx.R.fail("OPT-6", mod, g1, ev6[1], construct="for_task stub")
+        return
     if isinstance(g1, ast.If):
         ok, cex = (False, None)
         try:
@@ -1949,7 +2018,8 @@ def ori_rules(ctx: Ctx) -> None:
         got = outcome(h.body, n)
         if got in w:
             ctx.R.ok("ORI-2", f"no frame and {n} recorded error(s): {got}")
-        elif got == "?":
+        elif got == "?" or (got == "fall" and any(isinstance(r_, ast.Raise) and isinstance(r_.exc, ast.Name) for r_ in ast.walk(h))):
+            # (the exception to raise is first picked into a local: the handler does raise, what it raises is not followed here)
             ctx.R.undecided("ORI-2", f"cannot evaluate what extract_outermost raises with {n} recorded error(s)")
         else:
             ctx.R.fail("ORI-2", mod, h, f"extract_outermost with no frame and {n} recorded error(s) must {w[0]}, the handler does `{got}`", construct=f"StopIteration handler, {n} errors")
